@@ -29,7 +29,8 @@ Emit == Made => PrintT(ToJson([present |-> present, vals |-> vals, call |-> call
 (* wrong-design switch for the vacuity run (MC_ParamGettersBad.cfg: Outcome <- FirstOccurrence): a getter
    that converts the FIRST occurrence must be caught by GetterNeverMisreports *)
 FirstOccurrence(p, convs, c) ==
-    IF ~p THEN Out(IF c.required THEN "missing" ELSE IF c.hasdef THEN "default" ELSE "none", "", 0, <<>>, FALSE)
+    IF c.kind = "has" THEN Out("value", "", IF p THEN 1 ELSE 0, <<>>, FALSE)
+    ELSE IF ~p THEN Out(IF c.required THEN "missing" ELSE IF c.hasdef THEN "default" ELSE "none", "", 0, <<>>, FALSE)
     ELSE IF c.kind \in ListKinds THEN Out("value", "", 0, Vals(convs), c.store)
     ELSE IF ~convs[1].ok THEN Out("invalid", "conv", 0, <<>>, FALSE)
     ELSE Out("value", "", convs[1].v, <<>>, c.store)
